@@ -1,6 +1,7 @@
 package rules
 
 import (
+	"go/types"
 	"go/ast"
 	"go/token"
 	"sort"
@@ -370,6 +371,25 @@ func runC11(p *eng.Prog, r *eng.Report, tier string) {
 		f := c.fn("C11.7", "jid", name)
 		if f != nil {
 			c.r.Check("C11.7", f, "decodes through Parse", "P: XML decoding goes through Parse (and therefore through New)", f.Pos(), len(f.Calls("jid.Parse")) == 1, "no call of Parse")
+			for _, pc := range f.Calls("jid.Parse") {
+				// the decoded text reaches Parse unmodified (MarshalXML writes
+				// String() verbatim: trimming or mapping here breaks the round trip)
+				arg := ast.Unparen(pc.Args[0])
+				raw := false
+				switch a := arg.(type) {
+				case *ast.SelectorExpr:
+					_, isCall := ast.Unparen(a.X).(*ast.CallExpr)
+					raw = !isCall && f.Info().Selections[a] != nil && f.Info().Selections[a].Kind() == types.FieldVal
+				case *ast.Ident:
+					raw = false
+					if v, ok := f.Info().ObjectOf(a).(*types.Var); ok {
+						if _, isP := c11ParamIndex(f, v); isP {
+							raw = true
+						}
+					}
+				}
+				c.r.Check("C11.7", f, "argument of Parse", "P: the decoded character data / attribute value is handed to Parse as decoded (no trimming, mapping or re-slicing)", pc.Pos(), raw, "Parse is applied to "+f.Norm(pc.Args[0], nil))
+			}
 		}
 	}
 	for _, name := range []string{"JID.MarshalXML", "JID.MarshalXMLAttr"} {
@@ -378,4 +398,17 @@ func runC11(p *eng.Prog, r *eng.Report, tier string) {
 			c.r.Check("C11.7", f, "encodes String()", "P: XML encoding emits String()", f.Pos(), len(f.Calls("jid.JID.String")) == 1, "no call of String")
 		}
 	}
+}
+
+func c11ParamIndex(f *eng.Fn, v *types.Var) (int, bool) {
+	sig := f.Sig()
+	if sig == nil {
+		return 0, false
+	}
+	for i := 0; i < sig.Params().Len(); i++ {
+		if sig.Params().At(i) == v {
+			return i, true
+		}
+	}
+	return 0, false
 }
